@@ -62,6 +62,23 @@ def main(argv=None):
             # a violation found so far explains why a later kernel can no longer be modelled
             chk.info("analysis stopped early after the violation(s) above: %s" % e)
             chk.min_counts.clear()
+        if tier == "thorough" and not a.no_evidence and not chk.violations:
+            # second half of the thorough tier: the rules of this property must still fire on every
+            # seeded one-site break and stay silent on every behaviour-preserving twin
+            from sa import selftest
+
+            res = selftest.run_all([pid], a.repo, min(16, os.cpu_count() or 4))
+            bad = [(n, m) for _, n, ok, m in res if not ok]
+            chk.extra["selftest"] = {
+                "cases": len(res),
+                "unexpected": len(bad),
+                "names": [n for _, n, _, _ in res][:80],
+            }
+            chk.out("  thorough: self-test of %d seeded edits (mutants must fire, twins must stay silent): %d unexpected" % (len(res), len(bad)))
+            if bad:
+                for n, m in bad[:5]:
+                    chk.out("    selftest FAIL %s: %s" % (n, m[:300]))
+                raise AnalysisError("self-test failed for %d case(s): the checker is broken for %s" % (len(bad), bad[0][0]))
         return chk.finish()
     except AnalysisError as e:
         print("ANALYSIS-ERROR property=%s %s" % (pid, e))
